@@ -174,13 +174,15 @@ var rcptPool = []string{"rcpt1@example.com", "получатель@пример.
 
 type envelope struct {
 	from      string
-	rcpts     []string
+	rcpts     []string // as handed to the queue, in order (may hold spelling variants and byte-identical repetitions)
+	base      []string // the recipients drawn from the main stream (no variants)
+	varKinds  map[string]bool
 	meta      module.MsgMetadata
 	origRcpts map[string]string
 	feats     map[string]bool
 }
 
-func genEnvelope(p *prng.R, id string) envelope {
+func genEnvelope(p, pv *prng.R, id string) envelope {
 	e := envelope{feats: map[string]bool{}}
 	e.from = prng.Pick(p, senders)
 	if e.from == "" {
@@ -241,6 +243,30 @@ func genEnvelope(p *prng.R, id string) envelope {
 			e.meta.OriginalRcpts[k] = v
 		}
 		e.feats["orig-rcpts"] = true
+	}
+	// Spelling variants of recipients of the same message (separate stream: the draws above are unchanged).
+	e.base = append([]string(nil), e.rcpts...)
+	if pv.Chance(2, 5) {
+		v := addRcptVariants(pv, e.base)
+		e.rcpts = v.rcpts
+		e.varKinds = v.kinds
+		for k := range v.kinds {
+			e.feats["rcptvar-"+k] = true
+		}
+		if e.origRcpts != nil {
+			for _, r := range v.added {
+				if pv.Bool() {
+					o := "orig-" + word(pv, 4) + "@client.example"
+					e.origRcpts[r] = o
+					e.meta.OriginalRcpts[r] = o
+				}
+			}
+		}
+		for _, r := range v.added {
+			if !isASCII(r) {
+				e.feats["idn-rcpt"] = true
+			}
+		}
 	}
 	return e
 }
@@ -338,7 +364,11 @@ func TestVerif(t *testing.T) {
 	defer r.Close()
 	queue.VerifSetDontRecover(false)
 	sc := &scanner{}
-	osshim.SetRecorder(osshim.RecorderFunc(func(op osshim.Op) { sc.scan("fs-step " + op.Kind + "/" + op.Phase) }))
+	sn := &snapper{}
+	osshim.SetRecorder(osshim.RecorderFunc(func(op osshim.Op) {
+		sc.scan("fs-step " + op.Kind + "/" + op.Phase)
+		sn.op(op)
+	}))
 	defer osshim.SetRecorder(nil)
 
 	n := r.N(1200, 16000)
@@ -374,7 +404,8 @@ func TestVerif(t *testing.T) {
 			wantHdr := want.Bytes()
 			body, wantBody, bodyKind := genBody(p, base)
 			id := fmt.Sprintf("c10m%d", i)
-			env := genEnvelope(p, id)
+			pv := prng.New(r.Seed(), uint64(i), "c10-rcptvar")
+			env := genEnvelope(p, pv, id)
 			hist := p.Intn(nHist)
 			partial := p.Bool() || hist == hRestartPartial
 
@@ -396,8 +427,18 @@ func TestVerif(t *testing.T) {
 			}
 			failSubset := map[string]bool{} // for StStatus: which recipients fail
 			if hist == hRestartPartial {
-				for j, rc := range env.rcpts {
+				for j, rc := range env.base {
 					if j == 0 || p.Bool() {
+						failSubset[rc] = true
+					}
+				}
+				isBase := map[string]bool{}
+				for _, rc := range env.base {
+					isBase[rc] = true
+				}
+				for _, rc := range env.rcpts {
+					// a spelling variant fails or succeeds on its own
+					if !isBase[rc] && pv.Bool() {
 						failSubset[rc] = true
 					}
 				}
@@ -439,6 +480,23 @@ func TestVerif(t *testing.T) {
 			if longRetry {
 				retry1 = time.Hour
 			}
+			// A third of the histories is also stopped at file-system steps (plain process stop) and
+			// restarted from there; see crash_test.go. Separate stream.
+			pc := prng.New(r.Seed(), uint64(i), "c10-crash")
+			crashy := pc.Chance(1, 3)
+			if crashy {
+				perCls, nPost := 2, 3
+				if r.Thorough() {
+					perCls, nPost = 4, 6
+				}
+				sn.arm(spool, id, pc, perCls, nPost)
+			}
+			disarmed := false
+			defer func() {
+				if crashy && !disarmed {
+					sn.disarm()
+				}
+			}()
 			q := newQ(retry1)
 			ctx := context.Background()
 			meta := env.meta // the queue keeps the pointer; hand it a private copy
@@ -450,6 +508,7 @@ func TestVerif(t *testing.T) {
 				meta.TLSRequireOverride = false
 				meta.OriginalRcpts = nil
 			}
+			sn.setPhase(phAccept)
 			d, err := q.Start(ctx, &meta, env.from)
 			if err != nil {
 				t.Fatal(err)
@@ -477,6 +536,8 @@ func TestVerif(t *testing.T) {
 				return
 			}
 			sc.scan("after Body")
+			// Commit itself touches no file; the first attempt may begin before it returns.
+			sn.setPhase(phPost)
 			if err := d.Commit(ctx); err != nil {
 				t.Fatal(err)
 			}
@@ -514,6 +575,17 @@ func TestVerif(t *testing.T) {
 				q.Close()
 			}
 			sc.scan("quiescence")
+			var snaps []*crashSnap
+			var snapSteps [3]int
+			if crashy {
+				var errs []string
+				snaps, snapSteps, errs = sn.disarm()
+				disarmed = true
+				if len(errs) > 0 {
+					c.Inconclusive("snapshot of the spool failed: " + errs[0])
+					return
+				}
+			}
 			if !ok {
 				c.Inconclusive("spool did not drain within the watchdog (history " + histNames[hist] + ")")
 				return
@@ -579,6 +651,7 @@ func TestVerif(t *testing.T) {
 			}
 			sc.mu.Lock()
 			hits := append([]string(nil), sc.hits...)
+			sc.hits = nil
 			steps := sc.steps
 			sc.steps = 0
 			sc.mu.Unlock()
@@ -586,6 +659,49 @@ func TestVerif(t *testing.T) {
 			for _, h := range hits {
 				c.Violation("secrets/credential-in-spool", h, witness(lg, env, hist))
 				break
+			}
+			// ---------- restarts at non-quiescent points ----------
+			if crashy {
+				acc := &accepted{env: env, hdr: wantHdr, body: wantBody, bodyKind: bodyKind, partial: partial}
+				r.Count("crash_histories", 1)
+				r.Count("crash_fs_steps_acceptance", int64(snapSteps[phAccept]))
+				r.Count("crash_fs_steps_after_commit", int64(snapSteps[phPost]))
+				for k, cs := range snaps {
+					n, inc := recoverAndJudge(c, sc, base, k, cs, id, acc)
+					if inc != "" {
+						c.Inconclusive(inc)
+						return
+					}
+					if cs.phase == phAccept {
+						r.Count("crash_restarts_during_acceptance", 1)
+						r.Distinct("crash_points_acceptance", cs.file+"/"+cs.kind+"/"+cs.opPhase)
+						if n > 0 {
+							r.Count("crash_restarts_during_acceptance_delivering", 1)
+						}
+					} else {
+						r.Count("crash_restarts_after_commit", 1)
+						if n > 0 {
+							r.Count("crash_restarts_after_commit_delivering", 1)
+						}
+					}
+					r.Count("crash_recovery_attempts_checked", int64(n))
+				}
+				sc.mu.Lock()
+				hits = append(hits[:0:0], sc.hits...)
+				steps = sc.steps
+				sc.steps = 0
+				sc.mu.Unlock()
+				r.Count("fs_steps_scanned", steps)
+				for _, h := range hits {
+					c.Violation("secrets/credential-in-spool", h, witness(lg, env, hist))
+					break
+				}
+			}
+			if env.varKinds != nil {
+				r.Count("rcpt_variant_envelopes", 1)
+				for k := range env.varKinds {
+					r.Count("rcpt_variant_"+strings.ReplaceAll(k, "-", "_"), 1)
+				}
 			}
 			r.Count("attempts", int64(attempts))
 			r.Distinct("history", histNames[hist])
@@ -615,25 +731,29 @@ func witness(lg *mx.Log, env envelope, hist int) map[string]any {
 }
 
 func checkMeta(c *rep.Case, where string, m *mx.MetaSnap, env envelope, lg *mx.Log, hist int) {
+	checkMetaSig(c, "", where, m, env, func() map[string]any { return witness(lg, env, hist) })
+}
+
+func checkMetaSig(c *rep.Case, pre, where string, m *mx.MetaSnap, env envelope, wit func() map[string]any) {
 	if m.UTF8 != env.meta.SMTPOpts.UTF8 {
-		c.Violation("meta/smtputf8", fmt.Sprintf("%s: SMTPUTF8 option is %v, accepted with %v", where, m.UTF8, env.meta.SMTPOpts.UTF8), witness(lg, env, hist))
+		c.Violation(pre+"meta/smtputf8", fmt.Sprintf("%s: SMTPUTF8 option is %v, accepted with %v", where, m.UTF8, env.meta.SMTPOpts.UTF8), wit())
 	}
 	if m.RequireTLS != env.meta.SMTPOpts.RequireTLS {
-		c.Violation("meta/requiretls", fmt.Sprintf("%s: REQUIRETLS option is %v, accepted with %v", where, m.RequireTLS, env.meta.SMTPOpts.RequireTLS), witness(lg, env, hist))
+		c.Violation(pre+"meta/requiretls", fmt.Sprintf("%s: REQUIRETLS option is %v, accepted with %v", where, m.RequireTLS, env.meta.SMTPOpts.RequireTLS), wit())
 	}
 	if m.TLSRequireOverride != env.meta.TLSRequireOverride {
-		c.Violation("meta/tls-required-override", fmt.Sprintf("%s: TLS-Required override is %v, accepted with %v", where, m.TLSRequireOverride, env.meta.TLSRequireOverride), witness(lg, env, hist))
+		c.Violation(pre+"meta/tls-required-override", fmt.Sprintf("%s: TLS-Required override is %v, accepted with %v", where, m.TLSRequireOverride, env.meta.TLSRequireOverride), wit())
 	}
 	if len(m.OriginalRcpts) != len(env.origRcpts) {
-		c.Violation("meta/original-rcpts", fmt.Sprintf("%s: original-recipient map has %d entries, accepted with %d", where, len(m.OriginalRcpts), len(env.origRcpts)), witness(lg, env, hist))
+		c.Violation(pre+"meta/original-rcpts", fmt.Sprintf("%s: original-recipient map has %d entries, accepted with %d", where, len(m.OriginalRcpts), len(env.origRcpts)), wit())
 	} else {
 		for k, v := range env.origRcpts {
 			if m.OriginalRcpts[k] != v {
-				c.Violation("meta/original-rcpts", fmt.Sprintf("%s: original recipient of %q is %q, accepted with %q", where, k, m.OriginalRcpts[k], v), witness(lg, env, hist))
+				c.Violation(pre+"meta/original-rcpts", fmt.Sprintf("%s: original recipient of %q is %q, accepted with %q", where, k, m.OriginalRcpts[k], v), wit())
 			}
 		}
 	}
 	if m.OriginalFrom != env.meta.OriginalFrom {
-		c.Violation("meta/original-from", fmt.Sprintf("%s: OriginalFrom %q, accepted with %q", where, m.OriginalFrom, env.meta.OriginalFrom), witness(lg, env, hist))
+		c.Violation(pre+"meta/original-from", fmt.Sprintf("%s: OriginalFrom %q, accepted with %q", where, m.OriginalFrom, env.meta.OriginalFrom), wit())
 	}
 }
